@@ -24,7 +24,10 @@ def run(ctx):
                      "produces it and every quiescence point is a model state in which nothing but an irrelevant timer is enabled) and must "
                      "satisfy the direct oracle (barrier, no overlap, no lost trigger, runs complete, no stuck call); "
                      "distinct = hash of script; non-trivial = >= 1 registration and >= 1 stop/cancel/trigger call")
-    vlib.handle_broken_proof(ctx)
+    def deep():
+        # only when an obligation (e.g. the source census) no longer checks: patience mode, bigger storms
+        vlib.patience_part(ctx, GroupSpec(), exe, proofs_ok, tag="group", ncases=16, ms=6500)
+    vlib.handle_broken_proof(ctx, deep if ctx.tier == "quick" else None)
     ctx.finish(assumptions=[
         "timer semantics of Go < 1.23 (go.mod says go 1.18): capacity-1 channel, Stop reports whether the timer was pending, a fired value stays in the channel",
         "the real-time period/jitter of Periodic is not part of the property (timers fire at arbitrary times after being armed)",
